@@ -33,6 +33,7 @@ func init() {
 					}
 				}
 			}},
+			{ID: "C04.R7", Text: "what is exposed is the live position: no reader (API, metrics, checkpoint) retains a reference to the position map in a field of its own", Run: noRetainedPositionMap},
 			{ID: "C04.R4", Text: "the position map has no other writer (same rule as C01.R1)", Run: c01r1},
 		},
 	})
